@@ -31,6 +31,8 @@ Latitude (written down so that nobody mistakes it for coverage)
   * Minus-strand chunks (seq_chunk_to_parent(strand=MINUS), used by no upstream test): chunk coordinates run backwards;
     blocks/CDS are compared with the mirrored model, the strand column may be the chromosome strand or the
     chunk-relative strand.
+  * chunk-relative export of an interval that has no sequence-chunk ancestor (no parent / chromosome parent): the
+    docstring announces NoSuchAncestorException, the code answers in chromosome coordinates; both are accepted.
   * chrom column in chunk-relative mode: sequence_name or the chunk id are both accepted; with sequence_name=None any
     token is accepted ("None" is pinned upstream).
   * Adjacent exons (gap 0): a merged block is accepted (covered positions compared instead of the block list).
@@ -262,7 +264,7 @@ def _library_chunk_blocks(obj):
 
 def _one_parent(case, ctx, blocks, window, pidx):
     """Build the object on one parent and check both export modes."""
-    from inscripta.biocantor.exc import EmptyLocationException
+    from inscripta.biocantor.exc import EmptyLocationException, NoSuchAncestorException
     from inscripta.biocantor.io.bed import RGB, BED12
 
     cls, strand, cds = case["cls"], case["strand"], case["cds"]
@@ -311,6 +313,8 @@ def _one_parent(case, ctx, blocks, window, pidx):
             excused = (not containing) and isinstance(exc, EmptyLocationException) and (not want_blocks or not cds_in_window)
             if excused:
                 ctx.bump("cut_window_empty_location_refused")
+            elif not chunk and not chrom_mode and isinstance(exc, NoSuchAncestorException):
+                ctx.bump("chunk_mode_without_chunk_refused")  # what the docstring of to_bed12 announces
             else:
                 ctx.check("bed.exported", False, key=key + (type(exc).__name__,), window=window, exc=repr(exc)[:200])
             continue
